@@ -45,7 +45,7 @@ def gen_cases(engine, rng, tier):
     n = 250 if tier == 'quick' else 5000
     out = []
     for i in range(n):
-        kind = rng.choice(['size', 'size', 'sizeparam', 'hops', 'hops', 'strict', 'strict', 'bad', 'bad', 'wfq', 'wfq', 'rcpt'] if i % 40 else ['rcpt'])
+        kind = rng.choice(['size', 'size', 'sizeparam', 'hops', 'hops', 'strict', 'strict', 'strict', 'bad', 'bad', 'wfq', 'wfq', 'rcpt'] if i % 40 else ['rcpt'])
         hello = rng.choice([b'HELO c.example.net\r\n', b'EHLO c.example.net\r\n'])
         if kind == 'size':
             lim = rng.choice([150, 400])
@@ -69,11 +69,11 @@ def gen_cases(engine, rng, tier):
             cfg = 'relay=none;ip=v4;databytes=0;qq=ok,ok'
         elif kind == 'strict':
             # RfC 2822 header check on (check_strict_rfc2822): Received: counting must not depend on where Date:/From:/Message-Id: stand
-            k = rng.choice([3, 99, 100, 101, 102])
+            k = rng.choice([3, 99, 100, 101, 101, 102, 102])
             rl = rng.choice([b'Received: from a by b', b'received: x'])
             known = [b'Date: Thu, 1 Jan 1970 00:00:00 +0000', b'From: <a@example.net>', b'Message-Id: <1@example.net>']
             rng.shuffle(known)
-            pos = rng.choice(['first', 'last', 'middle', 'missing-date', 'missing-from', 'dup', '8bit-hdr', '8bit-body', 'deliv'])
+            pos = rng.choice(['first', 'first', 'last', 'middle', 'middle', 'first', 'middle', 'missing-date', 'missing-from', 'dup', '8bit-hdr', '8bit-body', 'deliv'])
             recv = [rl] * k
             if pos == 'first': hdr = known + recv
             elif pos == 'last': hdr = recv + known
